@@ -7,6 +7,7 @@ Model of job billing:
 * `batch/batch/cloud/gcp/resources.py`        GCP resources: to_dict / from_dict / gcp_resource_from_dict, dynamic disk, accelerator
 * `batch/batch/cloud/azure/resources.py`      Azure resources, `azure_disk_from_storage_in_gib` (azure/resource_utils.py)
 * `batch/batch/cloud/{gcp,azure}/instance_config.py`  to_dict / from_dict of the slim instance configs
+* `batch/batch/cloud/terra/azure/instance_config.py` TerraAzureSlimInstanceConfig.from_dict / to_dict
 
 Quantities are `Nat`.  A Python `assert` / `KeyError` is the explicit outcome `err` / `none`.
 Resource names are opaque strings (they come from `ProductVersions`, which is not modelled).
@@ -210,6 +211,16 @@ def Config.fromDict (d : CDict) : Option Config :=
     | some rs => do
       let res ← rs.mapM azureResourceFromDict
       Config.mk? .azure d.machineType d.preemptible d.localSsd d.dataDiskGb d.bootDiskGb d.jobPrivate res
+
+/-- `TerraAzureSlimInstanceConfig.from_dict` (batch/batch/cloud/terra/azure/instance_config.py): `data.get('resources', [])`,
+no version check; the extra `resource_id` is an opaque string that billing never reads (not modelled).  Its `to_dict` is the azure
+one plus `resource_id`. -/
+def Config.fromDictTerra (d : CDict) : Option Config :=
+  match d.resources with
+  | none => Config.mk? .azure d.machineType d.preemptible d.localSsd d.dataDiskGb d.bootDiskGb d.jobPrivate []
+  | some rs => do
+    let res ← rs.mapM azureResourceFromDict
+    Config.mk? .azure d.machineType d.preemptible d.localSsd d.dataDiskGb d.bootDiskGb d.jobPrivate res
 
 /-- resources a gcp / azure config may hold (what `create` and `*_resource_from_dict` produce) -/
 def Resource.isGcp : Resource → Bool
